@@ -69,6 +69,10 @@ def parse_shape(text):
             if head == "rec":
                 return ("rec", args[0].id)
             if head == "enum":
+                if len(args) > 1:
+                    # enum[A,B,..]: a member of any of the listed Enum classes (see ExprMixin.coerce: position in the
+                    # concatenation of the classes' member lists)
+                    return ("enum", tuple(a.id for a in args))
                 return ("enum", args[0].id)
         raise ValueError(f"bad shape {text!r}")
 
